@@ -93,18 +93,13 @@ fn show_lexed(l: &Lexed) -> String {
     if v.is_empty() { "-".to_string() } else { v.join(",") }
 }
 
-/// Is the token-level stream model applicable?  The streaming deserializer touches bytes in two
-/// places: `skip_container` (a byte scanner) and `read_expect_equals` (peeks one byte).  The
-/// token-level model is exact when (P1) every byte-level skip started after an Open lands right
-/// after the token-level matching Close (or fails when there is none) and (P2) there is no `==` token.
+/// Is the token-level stream model applicable?  The streaming deserializer touches bytes in
+/// `skip_container` (a byte scanner; `read_expect_equals` peeks bytes too but, since the repair of
+/// finding `exact-operator-split`, agrees with `read`).  The token-level model is exact when every
+/// byte-level skip started after an Open lands right after the token-level matching Close (or fails
+/// when there is none).
 fn token_model_applicable(data: &[u8], l: &Lexed) -> Result<(), &'static str> {
     for i in 0..l.toks.len() {
-        // `read_expect_equals` peeks one byte: a `==` right at the reader's position is split into
-        // `=`,`=`; where the position is after a scalar depends on the fast path taken (it may or may not
-        // swallow one following space), i.e. on layout and chunking (finding `exact-operator-split`).
-        if l.kinds[i] == K_EXACT {
-            return Err("exact-operator");
-        }
         if l.kinds[i] == K_OPEN {
             let mut depth = 1usize;
             let mut expect = None;
@@ -477,7 +472,7 @@ fn gen_top_doc(rng: &mut Rng) -> Vec<u8> {
     fields.push(format!("army={{ {} }}", keys.iter().map(|k| format!("{}={}", k, rng.below(500) as i64 - 250)).collect::<Vec<_>>().join(" ")));
     fields.push(format!("unit={{ {} }}", unit(rng)));
     fields.push(format!("list={{ {} }}", (0..rng.below(3)).map(|_| format!("{{ {} }}", unit(rng))).collect::<Vec<_>>().join(" ")));
-    fields.push(format!("date{}{}", if rng.chance(1, 3) { *rng.pick(&[" < ", " >= ", " != ", " ?= ", "<=", ">"]) } else { "=" }, rng.below(3000)));
+    fields.push(format!("date{}{}", if rng.chance(1, 3) { *rng.pick(&[" < ", " >= ", " != ", " ?= ", " == ", "==", "<=", ">"]) } else { "=" }, rng.below(3000)));
     fields.push(format!("a={}", if rng.chance(1, 2) { "yes" } else { "no" }));
     if rng.chance(1, 2) { fields.push(format!("b={}", if rng.chance(1, 2) { "yes" } else { "no" })); }
     for _ in 0..rng.below(3) { let w = word(rng); fields.push(format!("unk_{}={}", w, if rng.chance(1, 2) { format!("{{ {}={{ {} }} }}", w, w) } else { w.clone() })); }
@@ -528,7 +523,6 @@ pub fn exec(w: &[&str], obs: &mut Obs) -> Option<String> {
             if show::text_tape(real.tokens()) != *tape { obs.violation("bad-case", &case(), "tape argument is not the real tape of the input"); return Some("bad-case".into()); }
             let r = run_tape(enc, &ty, &real);
             count_val(obs, "tape", &r);
-            let has_exact = lex(&data).kinds.contains(&K_EXACT);
             // L3: the slice front end is the same path
             let s = run_slice(enc, &ty, &data);
             if s != r { obs.violation("tape-vs-slice", &case(), &format!("tape {} slice {}", r, s)); }
@@ -537,10 +531,7 @@ pub fn exec(w: &[&str], obs: &mut Obs) -> Option<String> {
                 if r != *expect { obs.violation("value-of", &case(), &format!("tape path {} reference {}", r, expect)); }
                 // L3: the reader path over the same bytes yields an equal value
                 let (x, _) = run_reader(enc, &ty, TokenReader::new(&data[..]));
-                if x != r {
-                    if has_exact { obs.count("known-divergence:exact-operator-split"); }
-                    else { obs.violation("paths-disagree", &case(), &format!("tape {} reader {}", r, x)); }
-                }
+                if x != r { obs.violation("paths-disagree", &case(), &format!("tape {} reader {}", r, x)); }
             }
             Some(r)
         }
@@ -555,10 +546,7 @@ pub fn exec(w: &[&str], obs: &mut Obs) -> Option<String> {
             if *op == "tde_stream" { if let Err(why) = applicable { obs.violation("bad-case", &case(), why); return Some("bad-case".into()); } }
             let (r, _) = run_reader(enc, &ty, TokenReader::from_slice(&data));
             count_val(obs, "stream", &r);
-            let has_exact = l.kinds.contains(&K_EXACT);
-            let mut violation = |obs: &mut Obs, kind: &str, detail: String| {
-                if has_exact { obs.count("known-divergence:exact-operator-split"); } else { obs.violation(kind, &case(), &detail); }
-            };
+            let violation = |obs: &mut Obs, kind: &str, detail: String| obs.violation(kind, &case(), &detail);
             // L3: independent of buffer size and read schedule
             let (c, full) = run_reader(enc, &ty, TokenReader::builder().buffer_len(cap).build(sched::SchedReader::new(&data, steps)));
             if full { obs.count("stream:chunked-buffer-full"); }
@@ -614,6 +602,10 @@ pub fn exec(w: &[&str], obs: &mut Obs) -> Option<String> {
 }
 
 fn emit_pair(g: &mut Gen, enc: Enc, ty: &Ty, data: &[u8], expect: Option<&str>) {
+    emit_pair_with(g, enc, ty, data, expect, None)
+}
+
+fn emit_pair_with(g: &mut Gen, enc: Enc, ty: &Ty, data: &[u8], expect: Option<&str>, fixed: Option<(usize, &str)>) {
     let e = expect.unwrap_or("-");
     let tys = show_ty(ty);
     match TextTape::from_slice(data) {
@@ -624,16 +616,34 @@ fn emit_pair(g: &mut Gen, enc: Enc, ty: &Ty, data: &[u8], expect: Option<&str>) 
     let maxtok = l.toks.iter().map(|t| t.len() / 2).max().unwrap_or(1);
     let cap = match g.rng.below(4) { 0 => maxtok + 8 + g.rng.below(8), 1 => 16 + g.rng.below(48), 2 => 64 + g.rng.below(200), _ => 32768 }.max(8);
     let sch = sched::show(&sched::random(&mut g.rng, data.len()).into_iter().filter(|s| !matches!(s, sched::Step::Fail | sched::Step::FailForever)).collect::<Vec<_>>());
+    let (cap, sch) = match fixed { Some((c, s)) => (c, s.to_string()), None => (cap, sch) };
     let op = match token_model_applicable(data, &l) { Ok(()) => "tde_stream", Err(why) => { g.count(&format!("stream-model-not-applicable:{}", why)); "x-tde_stream" } };
     g.emit(format!("{} {} {} {} {} {} {} {}", op, enc.name(), tys, show_lexed(&l), hex(data), cap, sch, e));
 }
 
 pub fn gen(g: &mut Gen) {
+    // 0. fixed witnesses of repaired findings (also kept in corpus/C02.txt): `==` after a key on the
+    //    streaming path (layout- and chunk-dependent before 42b6207), operators on a first field (F9)
+    for (ty, text, expect) in [
+        ("st(a:prop(str);b:opt(str))", &b"a==b"[..], "{a=prop(exact,s62),b=none}"),
+        ("st(a:prop(str);b:opt(str))", b"a == b            ", "{a=prop(exact,s62),b=none}"),
+        ("st(a:prop(str);b:opt(str))", b"a == b", "{a=prop(exact,s62),b=none}"),
+        ("st(a:prop(i64);b:opt(str))", b"a=1 b==c a2 == 3 ", "{a=prop(eq,i1),b=some(s63)}"),
+        ("st(a:st(b:prop(str)))", b"a={ b ?= c }", "{a={b=prop(exists,s63)}}"),
+        ("st(a:st(b:prop(str)))", b"a={ b != c }", "{a={b=prop(ne,s63)}}"),
+    ] {
+        let ty = parse_ty(ty).unwrap();
+        for (cap, sch) in [(32768usize, "-"), (8, "R1"), (9, "R2"), (16, "3,1,R5")] {
+            emit_pair_with(g, Enc::W, &ty, text, Some(expect), Some((cap, sch)));
+        }
+    }
     // 1. well-formed save-style documents x layouts x encodings x target types
     let n = g.budget(7_000, 120_000);
     let cfg = DocCfg::save_style();
     for i in 0..n {
-        let doc = gen_doc(&mut g.rng, &cfg);
+        let mut doc = gen_doc(&mut g.rng, &cfg);
+        // the shared generator returns an empty document 1 time in 5: keep a few, redraw the rest
+        while doc.fields.is_empty() && g.rng.chance(19, 20) { doc = gen_doc(&mut g.rng, &cfg); }
         let data = render_layout(&mut g.rng, &LayoutCfg::reader_safe(), &lexemes(&doc));
         let mut ty = if g.rng.chance(1, 8) { doc_ty(&mut g.rng, &doc, true) } else { gen_fields_ty(&mut g.rng, &doc.fields, &TyCfg { prop: true }) };
         if g.rng.chance(1, 12) { ty = misfit(&mut g.rng, &ty); g.count("ty-misfit"); }
@@ -650,14 +660,6 @@ pub fn gen(g: &mut Gen) {
     let cfg_ops = DocCfg { operators: true, ..DocCfg::save_style() };
     for _ in 0..n {
         let mut doc = gen_doc(&mut g.rng, &cfg_ops);
-        // `==` is kept out as well: the streaming path splits it depending on layout (finding exact-operator-split)
-        fn no_exact(rng: &mut Rng, fs: &mut [Field]) {
-            for f in fs.iter_mut() {
-                if f.op == Op::Exact { f.op = *rng.pick(&[Op::Lt, Op::Le, Op::Gt, Op::Ge, Op::Ne, Op::Exists]); }
-                match &mut f.val { Node::Obj(inner) => no_exact(rng, inner), Node::Arr(vs) => for v in vs { if let Node::Obj(inner) = v { no_exact(rng, inner); } }, Node::Header(_, b) => if let Node::Obj(inner) = &mut **b { no_exact(rng, inner); }, _ => {} }
-            }
-        }
-        no_exact(&mut g.rng, &mut doc.fields);
         let data = render_layout(&mut g.rng, &LayoutCfg::reader_safe(), &lexemes(&doc));
         // operators are only observable through Property: wrap every field with a non-'=' operator
         fn wrap(rng: &mut Rng, fs: &[Field]) -> Ty {
@@ -703,10 +705,8 @@ pub fn gen(g: &mut Gen) {
         ("array-leading-empty", "st(a:seq(ign))", b"a={ {} 1 2 }"),
         ("first-field-operator-repaired", "st(a:st(b:prop(str)))", b"a={ b ?= c }"),
         ("first-field-operator-repaired", "st(a:st(b:prop(str)))", b"a={ b != c }"),
-        ("exact-operator-split", "st(a:prop(str);b:opt(str))", b"a==b"),
-        ("exact-operator-split", "st(a:prop(str);b:opt(str))", b"a == b            "),
-        ("exact-operator-split-control", "st(a:prop(str);b:opt(str))", b"a == b"),
-        ("exact-operator-split-control", "st(a:prop(str);b:opt(str))", b"a  == b            "),
+        ("exact-operator-split-repaired", "st(a:prop(str);b:opt(str))", b"a==b"),
+        ("exact-operator-split-repaired", "st(a:prop(str);b:opt(str))", b"a == b            "),
     ] {
         g.emit(format!("x-probe {} w1252 {} {}", kind, ty, hex(text)));
     }
